@@ -100,6 +100,8 @@ pub fn coverage_from_agg(a: &Agg, rule: &str, extra: Value) -> Value {
         "caps_hit_count": a.incomplete.len(),
         "violating_programs": a.violating_programs,
         "builder_rejected_configurations": a.builder_rejected,
+        "heaviest_explorations": a.heaviest.iter().map(|(n, b, p)| json!({"executions": n, "bound": b, "program": p})).collect::<Vec<_>>(),
+        "per_harness": a.per_tag.iter().map(|(k, v)| (k.clone(), json!({"programs": v.0, "executions": v.1}))).collect::<serde_json::Map<_, _>>(),
     });
     if let (Some(o), Some(e)) = (c.as_object_mut(), extra.as_object()) {
         for (k, v) in e {
